@@ -371,6 +371,11 @@ func runMonG(l *Ledger, rule, construct string, g *Graph, mon Monitor, okWhy str
 }
 
 func checkC05(p *Prog, l *Ledger) {
+	// a condition means what the documented grouping says (`a বা b এবং c` is `a বা (b এবং c)`): C01's ladder
+	l.AsOnly(map[string]string{"C01/S1-ladder": "C05/S5-condition-grouping"}, func() { checkC01(p, l) })
+	// a loop counter is the variable the loop declared: an assignment updates the innermost binding of the name, the one
+	// a read finds (C03's shape rules of the environment) — otherwise nested loops over one name step each other's counter
+	l.AsOnly(map[string]string{"C03/S1-environment-shape": "C05/S6-loop-variables/environment-shape"}, func() { checkC03(p, l) })
 	cs := getClauses(p)
 	if !cs.account(l) {
 		return
@@ -544,6 +549,9 @@ func checkC06(p *Prog, l *Ledger) {
 	l.AsOnlyWhere(map[string]string{"C07/P1-": "C06/S0-fault-detected/no-panic/P1-", "C07/P2-": "C06/S0-fault-detected/no-panic/P2-", "C07/P3-": "C06/S0-fault-detected/no-panic/P3-",
 		"C07/P4-": "C06/S0-fault-detected/no-panic/P4-", "C07/P5-": "C06/S0-fault-detected/no-panic/P5-", "C07/P6-": "C06/S0-fault-detected/no-panic/P6-", "C07/P7-": "C06/S0-fault-detected/no-panic/P7-"},
 		func(o *Obligation) bool { return strings.HasPrefix(o.Pos, "interpreter/") || strings.HasPrefix(o.Pos, "environment/") }, func() { checkC07(p, l) })
+	// the line a diagnostic names is the line of the construct: each node's Line is fed from the token the grammar
+	// associates with it (C01's wiring table) — a declarator's line is its own name's line, not where the statement began
+	l.AsOnlyWhere(map[string]string{"C01/S5-wiring": "C06/S4-parser-line/node-wiring"}, func(o *Obligation) bool { return o.Status == Discharged || strings.Contains(o.Why, "Line") }, func() { checkC01(p, l) })
 	// ---- S1 single reporter
 	checkFlagWriters(p, l, "C06/S1-single-reporter")
 	// ---- S2 / S3
